@@ -6,8 +6,9 @@
  *   bit 0: event_del(ev)            — its effect on the loop protocol, verbatim from event_del_nolock_:
  *                                     if (ev->ev_ncalls && ev->ev_pncalls) *ev->ev_pncalls = 0;
  *   bit 1: event_base_loopbreak()   — base->event_break = 1
- * and records, as running ghost state (scalars only, so the same contract serves the bounded unit and a
- * loop-contract variant):
+ * and records, as running ghost state (scalars only: the contract does not depend on the unwinding bound; a
+ * loop-contract variant with C07G_NMAX = SHRT_MAX was tried and hit the dfcc havoc blow-up of pitfall 4 — the loop
+ * is written through ev_pncalls):
  *   g_sc.calls        number of calls so far
  *   g_sc.bad          some call did not see (fd, ev_res, arg), or ran with the base lock held, or did not see
  *                     ev_ncalls == deliveries still owed AFTER this call, or ev_pncalls != (non-NULL iff ev_ncalls > 0)
